@@ -25,4 +25,4 @@ YOUR TASK: produce {n} different, independent changes to the library source (eac
 {base}
  (b) the property above is violated on some input / history / schedule;
  (c) the violation needs something SPECIFIC to manifest — a particular interleaving, a crash or fault at a particular point, a multi-step sequence of operations, an unusual input or combination of parameters, or two cooperating sites that each look fine alone — NOT something ordinary use or the obvious tests would expose at once. Prefer subtle over blatant; make the changes different in kind and location, and spread them over different clauses of the property statement.
-For each change write to {wt}_out/<k>/ (k = 1..{n}): `patch.diff` (output of `git diff` in the worktree), `demo.py` (a small standalone program, run as `PYTHONPATH=<tree> /venv/bin/python demo.py`, that exits 0 when the property holds and exits 1 printing what differs when it is violated; it must pass on the unmodified worktree and fail with the change applied — verify both), and `README.md` (which clause of the property breaks, what is needed for it to manifest, which tests you ran and their result). After finishing one change, restore the worktree with `git -C {wt} checkout -- .` before starting the next. Leave the worktree clean at the end. Report briefly what the changes are.""")
+For each change write to {wt}_out/<k>/ (k = 1..{n}): `patch.diff` (output of `git diff` in the worktree), `demo.py` (a small standalone program, run as `PYTHONPATH=<tree> /venv/bin/python demo.py`, that exits 0 when the property holds and exits 1 printing what differs when it is violated; it must pass on the unmodified worktree and fail with the change applied — verify both), and `README.md` (which clause of the property breaks, what is needed for it to manifest, which tests you ran and their result). After finishing one change, restore the worktree with `git -C {wt} checkout -- .` before starting the next. NEVER use `git stash` (the stash is shared between all worktrees of the repository and other agents work in sibling worktrees): save a change with `git diff > file` and restore it with `git apply`. Leave the worktree clean at the end. Report briefly what the changes are.""")
